@@ -1,12 +1,12 @@
 ---- MODULE MC_OalTypeTrace ----
 EXTENDS OalTypeTrace
 \* (a referential attribute has the type of the attribute it refers to)
-MC_AttrTypes == [A |-> [Id |-> "unique_id", N |-> "integer", S |-> "string", F |-> "boolean", Prev_Id |-> "unique_id", Calc |-> "integer"],
+MC_AttrTypes == [A |-> [Id |-> "unique_id", N |-> "integer", S |-> "string", F |-> "boolean", Prev_Id |-> "unique_id", Calc |-> "integer", Items |-> "integer"],
                  B |-> [Id |-> "unique_id", N |-> "integer", A_Id |-> "unique_id"],
                  L |-> [A_Id |-> "unique_id", B_Id |-> "unique_id", W |-> "integer"],
                  P |-> [Id |-> "unique_id", N |-> "integer"],
                  M |-> [One_Id |-> "unique_id", Other_Id |-> "unique_id", W |-> "integer"]]
-MC_ParamTypes == [x |-> "integer", flag |-> "boolean", s |-> "string", cnt |-> "Count"]
+MC_ParamTypes == [x |-> "integer", flag |-> "boolean", s |-> "string", cnt |-> "Count", vec |-> "integer"]
 MC_RetTypes == ("fact" :> "integer" @@ "tally" :> "Count" @@ "mix" :> "integer" @@ "A::cop" :> "integer" @@ "EE1::br" :> "integer" @@ "A.iop" :> "integer")
 MC_ConstTypes == ("LIMIT" :> "integer" @@ "GREETING" :> "string" @@ "ENABLED" :> "boolean" @@ "FLOOR" :> "integer")
 MC_NavTarget == <<>>
